@@ -22,7 +22,7 @@ def suite(features=None):
     lines = [l for l in t.stdout.splitlines() if l.startswith("test result")]
     return ("compile-error" if ("could not compile" in t.stdout) else f"{sum(int(l.split()[3]) for l in lines)} passed / {sum(int(l.split()[5]) for l in lines)} failed")
 def demo():
-    t = sh(["cargo", "test", "--offline", "--test", "demo"], cwd=wt, env=env)
+    t = sh(["cargo", "test", "--offline", "--features", "ram_bundle", "--test", "demo"], cwd=wt, env=env)
     lines = [l for l in t.stdout.splitlines() if l.startswith("test result")]
     return lines[-1] if lines else ("compile-error" if "could not compile" in t.stdout else "no result")
 res = {}
